@@ -20,9 +20,15 @@ var hostilePool = []string{
 	ref.BOM, ref.BOM + "x", "x" + ref.BOM, "\x00", "a\x00b", "\xff", "\xff\xfe\n\xfd", "é", "日本\n語", "\xe2\x80\xa8", "\x0b", "\x0c", "\xc2\x85", " x",
 	"event: x\n\n", "id\n", "id", ": comment", "::", " :", "\t", "\tx", "a:b:c", "a: b", "hello world", "x", "0", "-1", "+1",
 	"data: a\ndata: b", "line1\nline2\nline3", "\n\n\n", "\r\n\r\n\r\n", " \n ", ":\n:", "\nid: 1\ndata: x\n\n",
+	// literals an implementation might treat as "default" or as a marker
+	"message", "open", "error", "null", "undefined", "true", "false", "*", "all", "default", "nil", "NaN", "retry", "event", "id", "data", "comment",
 }
 
+// hostileSmall: number of pool entries before the three very large ones appended in init
+var hostileSmall int
+
 func init() {
+	hostileSmall = len(hostilePool)
 	hostilePool = append(hostilePool, strings.Repeat("L", 70*1024), strings.Repeat("ab\n", 2000), strings.Repeat("q", 4095)+"\n"+strings.Repeat("r", 4097))
 }
 
@@ -60,7 +66,7 @@ func pickString(rng *rand.Rand) string {
 		return smallString(smallAlpha, rng.IntN(smallCount(smallAlpha, 5)))
 	case 3:
 		// random concatenation of two pool entries
-		return hostilePool[rng.IntN(len(hostilePool)-3)] + hostilePool[rng.IntN(len(hostilePool)-3)]
+		return hostilePool[rng.IntN(hostileSmall)] + hostilePool[rng.IntN(hostileSmall)]
 	default:
 		return hostilePool[rng.IntN(len(hostilePool))]
 	}
